@@ -3,7 +3,6 @@
   directory, in terms of `dataOf` (file contents by name).  Core Lean only.
 -/
 import GIV.Lemmas.CacheFS
-import GIV.Lemmas.CacheParse
 
 namespace GIV.Cache
 open GIV
@@ -194,25 +193,26 @@ theorem put_spec (H : Bytes → Hash) (fs : FS) (now : Int) (id : Hash) (data : 
   · intro m h1 h2
     simp only [dataOf, hi2 m h1, hother m h2]
 
-/-! ### an intact entry -/
+/-! ### an entry whose index file parses and whose data file holds the data -/
 
-/-- id ↦ data is stored intact: the index file holds a well-formed entry for `(H data, len data)` and the data
-file named by `H data` holds `data`. -/
-def Stored (H : Bytes → Hash) (fs : FS) (id : Hash) (data : Bytes) : Prop :=
-  (∃ t : Int, 0 ≤ t ∧ t < 2 ^ 63 ∧ dataOf fs (fileName id keyA) = some (fmtEntry id (H data) data.length t)) ∧
-  dataOf fs (fileName (H data) keyD) = some data ∧ (data.length : Int) < 2 ^ 63
+/-- the index file of `id` holds bytes that `get` parses to `(H data, len data, _)` and the data file named by
+`H data` holds `data`.  (No fact about the index codec is used here; `GIV.Lemmas.CacheStored` shows that what
+`Put` writes satisfies it.) -/
+def StoredP (H : Bytes → Hash) (fs : FS) (id : Hash) (data : Bytes) : Prop :=
+  (∃ d t, dataOf fs (fileName id keyA) = some d ∧ parseEntry id d = .ok ⟨H data, data.length, t⟩) ∧
+  dataOf fs (fileName (H data) keyD) = some data
 
-theorem Stored.of_sameData {H : Bytes → Hash} {fs fs' : FS} {id : Hash} {data : Bytes}
-    (h : Stored H fs id data) (hs : SameData fs fs') : Stored H fs' id data := by
-  obtain ⟨⟨t, h0, h1, hi⟩, hd, hl⟩ := h
-  exact ⟨⟨t, h0, h1, by rw [hs]; exact hi⟩, by rw [hs]; exact hd, hl⟩
+theorem StoredP.of_sameData {H : Bytes → Hash} {fs fs' : FS} {id : Hash} {data : Bytes}
+    (h : StoredP H fs id data) (hs : SameData fs fs') : StoredP H fs' id data := by
+  obtain ⟨⟨d, t, hi, hp⟩, hd⟩ := h
+  exact ⟨⟨d, t, by rw [hs]; exact hi, hp⟩, by rw [hs]; exact hd⟩
 
-theorem Stored.get {H : Bytes → Hash} {fs : FS} {id : Hash} {data : Bytes} (h : Stored H fs id data) (now : Int) :
+theorem StoredP.get {H : Bytes → Hash} {fs : FS} {id : Hash} {data : Bytes} (h : StoredP H fs id data) (now : Int) :
     ∃ t, (get fs now id).1 = .ok ⟨H data, data.length, t⟩ := by
-  obtain ⟨⟨t, h0, h1, hi⟩, _, hl⟩ := h
-  exact ⟨t, by rw [get_of_data fs now id _ hi, parse_fmt id (H data) data.length t (by omega) hl h0 h1]⟩
+  obtain ⟨⟨d, t, hi, hp⟩, _⟩ := h
+  exact ⟨t, by rw [get_of_data fs now id _ hi, hp]⟩
 
-theorem Stored.getBytes {H : Bytes → Hash} {fs : FS} {id : Hash} {data : Bytes} (h : Stored H fs id data) (now : Int) :
+theorem StoredP.getBytes {H : Bytes → Hash} {fs : FS} {id : Hash} {data : Bytes} (h : StoredP H fs id data) (now : Int) :
     ∃ t, (getBytes H fs now id).1 = .ok (data, ⟨H data, data.length, t⟩) := by
   obtain ⟨t, hg⟩ := h.get now
   have hs := get_sameData fs now id
@@ -225,7 +225,7 @@ theorem Stored.getBytes {H : Bytes → Hash} {fs : FS} {id : Hash} {data : Bytes
     subst hg
     simp only []
     have hd : dataOf (outputFile fs1 now (H data)).2 (fileName (H data) keyD) = some data := by
-      rw [outputFile_sameData, hs]; exact h.2.1
+      rw [outputFile_sameData, hs]; exact h.2
     simp only [outputFile] at hd ⊢
     unfold dataOf at hd
     have ⟨f, hf, hfd⟩ : ∃ f, (used fs1 now (fileName (H data) keyD)).get (fileName (H data) keyD) = some f ∧ f.data = data := by
@@ -234,7 +234,7 @@ theorem Stored.getBytes {H : Bytes → Hash} {fs : FS} {id : Hash} {data : Bytes
       | some f => rw [hf] at hd; simp at hd; exact ⟨f, rfl, hd⟩
     simp [hf, hfd, Gen.Cache.getBytesReject]
 
-theorem Stored.getFile {H : Bytes → Hash} {fs : FS} {id : Hash} {data : Bytes} (h : Stored H fs id data) (now : Int) :
+theorem StoredP.getFile {H : Bytes → Hash} {fs : FS} {id : Hash} {data : Bytes} (h : StoredP H fs id data) (now : Int) :
     ∃ t, (getFile fs now id).1 = .ok (fileName (H data) keyD, ⟨H data, data.length, t⟩) := by
   obtain ⟨t, hg⟩ := h.get now
   have hs := get_sameData fs now id
@@ -247,7 +247,7 @@ theorem Stored.getFile {H : Bytes → Hash} {fs : FS} {id : Hash} {data : Bytes}
     subst hg
     simp only []
     have hd : dataOf (outputFile fs1 now (H data)).2 (fileName (H data) keyD) = some data := by
-      rw [outputFile_sameData, hs]; exact h.2.1
+      rw [outputFile_sameData, hs]; exact h.2
     simp only [outputFile] at hd ⊢
     unfold dataOf at hd
     have ⟨f, hf, hfd⟩ : ∃ f, (used fs1 now (fileName (H data) keyD)).get (fileName (H data) keyD) = some f ∧ f.data = data := by
